@@ -2,7 +2,9 @@
 #pragma once
 #include <string>
 #include <vector>
+#include "ada.h"
 #include "bytesrc.h"
+#include "harness.h"
 #include "urlgen.h"
 
 namespace vf {
@@ -83,6 +85,54 @@ inline std::string render_case(const UrlCase& c) {
   s += c.has_base ? " base=\"" + show(c.base) + "\"" : " base=none";
   for (auto& o : c.ops) s += std::string(" ; ") + op_name(o.setter) + (o.setter < 10 ? "(\"" + show(o.value) + "\")" : std::string("()"));
   return s;
+}
+
+// History independence, second form: RELATED inputs.  A cache, memo or scratch buffer that is
+// keyed on (part of) the input goes wrong for inputs that look alike, which unrelated
+// prelude calls never provide.  For one case in eight (chosen by the case hash, no bytes are
+// consumed) a sibling of the input is parsed first with both URL types and can_parse, and
+// its results are thrown away: the doubly percent-encoded form, the once-decoded form, the
+// other letter case, the same text under a special / non-special scheme, a truncated form,
+// the input itself.  Declared here, needs ada.h at the point of use.
+template <class Dummy = void>
+inline void warm_siblings(const std::string& input, const std::string* base, uint64_t h) {
+  if ((h & 7) != 3) return;
+  std::string sib;
+  switch ((h >> 3) % 7) {
+    case 0: for (char ch : input) { if (ch == '%') sib += "%25"; else sib.push_back(ch); } break;
+    case 1: {
+      auto hex = [](unsigned char ch) { return (ch >= '0' && ch <= '9') ? ch - '0' : (ch >= 'a' && ch <= 'f') ? ch - 'a' + 10 : (ch >= 'A' && ch <= 'F') ? ch - 'A' + 10 : -1; };
+      for (size_t i = 0; i < input.size(); i++) {
+        if (input[i] == '%' && i + 2 < input.size() && hex((unsigned char)input[i + 1]) >= 0 && hex((unsigned char)input[i + 2]) >= 0) { sib.push_back((char)(hex((unsigned char)input[i + 1]) * 16 + hex((unsigned char)input[i + 2]))); i += 2; }
+        else sib.push_back(input[i]);
+      }
+      if (!is_valid_utf8(sib)) sib = input;
+      break;
+    }
+    case 2: sib = input; for (char& ch : sib) if (ch >= 'a' && ch <= 'z') ch = (char)(ch - 32); break;
+    case 3: sib = input; for (char& ch : sib) if (ch >= 'A' && ch <= 'Z') ch = (char)(ch + 32); break;
+    case 4: {
+      size_t colon = input.find(':');
+      bool special = colon != std::string::npos && (colon == 4 || colon == 5 || colon == 2 || colon == 3);
+      sib = colon == std::string::npos ? "foo://" + input : std::string(special ? "foo" : "http") + input.substr(colon);
+      break;
+    }
+    case 5: sib = input.substr(0, utf8_boundary(input, input.size() > 1 ? input.size() - 1 : 0)); break;
+    default: sib = input; break;
+  }
+  VF_TAG("related_input_parsed_first");
+  if (base) {
+    auto ba = ada::parse<ada::url_aggregator>(*base);
+    auto bu = ada::parse<ada::url>(*base);
+    if (ba) (void)ada::parse<ada::url_aggregator>(sib, &*ba);
+    if (bu) (void)ada::parse<ada::url>(sib, &*bu);
+    std::string_view bv = *base;
+    (void)ada::can_parse(sib, &bv);
+  } else {
+    (void)ada::parse<ada::url_aggregator>(sib);
+    (void)ada::parse<ada::url>(sib);
+    (void)ada::can_parse(sib);
+  }
 }
 
 }  // namespace vf
